@@ -380,7 +380,7 @@ class Env:
         with bnp.open(self.path("AB"), lazy=lazy, buffer_type=self.buffer_type) as f:
             chunks = list(f.read_chunks(min_chunk_size=size))
         if not chunks:
-            raise Skip("no chunk")
+            raise ValueError("no chunk read")
         return [chunks[0], chunks[-1]]
 
     def write(self, table, tag):
@@ -529,7 +529,7 @@ def diff_class(a, b):
     a misalignment is not taken for a known content difference of the same program shape."""
     import json
     if isinstance(a, str) and isinstance(b, str):
-        a, b = a.splitlines(), b.splitlines()
+        a, b = a.splitlines(True), b.splitlines(True)
     if isinstance(a, dict) and isinstance(b, dict) and "dc" in a and "dc" in b:
         for (fa, va), (fb, vb) in zip(a["dc"], b["dc"]):
             if fa != fb:
@@ -558,11 +558,8 @@ def run_program(env, prog, final=True):
     """-> (status, [Divergence]); status in ok / skip / both-fail(step).  Stops at the first diverging step; the
     final observation reports every diverging observation."""
     need_u = any(op[0] == "swap" or (op[0] == "cat" and "u" in op[1]) for op in prog)
-    try:
-        lo = _outcome(lambda: env.read(True, need_u))
-        eo = _outcome(lambda: env.read(False, need_u))
-    except Skip:
-        return "skip", []
+    lo = _outcome(lambda: env.read(True, need_u))
+    eo = _outcome(lambda: env.read(False, need_u))
     if lo[0] == "exc" or eo[0] == "exc":
         st, d = _compare(-1, "read", ("ok", None) if lo[0] == "ok" else lo, ("ok", None) if eo[0] == "ok" else eo)
         return ("both-fail" if st else "diverged"), ([d] if d else [])
@@ -638,8 +635,8 @@ def _canonical_candidates(op, fields):
     """[(replacement op, label)] tried in order; the first one that keeps the divergence names the op"""
     names = [f for f, _ in fields]
     kinds = dict(fields)
-    repl = [f for f in names if kinds[f] != "other"]
-    k = op[0]
+    repl = [f for f in names if kinds[f] == "int"] + [f for f in names if kinds[f] not in ("int", "other")]
+    k = op[0]   # repl[0] is the first replaceable field of the alphabets (the first int column if there is one)
     if k == "idx":
         return [(["idx", CANON_IDX], "idx")], "idx." + op[1]
     if k == "cat":
